@@ -83,9 +83,11 @@ type symCond struct {
 	lo, hi symInt
 	cmpOp  string // "<=" or "<": a op b
 	a, b   symInt
+	prefix bool // the window was tested with HasPrefix (no bounds obligation)
 }
 
 type symPath struct {
+	innerStep string // "" ok; otherwise what the inner loop does to its counter
 	kind  string // back | exit | inner | panic
 	conds []symCond
 	next  map[string]interface{} // role -> value at the end of the iteration
@@ -94,6 +96,7 @@ type symPath struct {
 }
 
 type symScanResult struct {
+	lineSteps int // iteration paths through the line-feed branch with a recognisable elision test
 	init    map[string]string // role -> initial value of the loop-carried variable
 	decided bool
 	why     string
@@ -110,17 +113,23 @@ type symFrame struct {
 	prev   *ssa.BasicBlock
 	idx    int
 	onPath map[*ssa.BasicBlock]int
+	havoc  map[*ssa.BasicBlock]bool
 }
 
 type symState struct {
-	stack []*symFrame
-	conds []symCond
+	stack     []*symFrame
+	conds     []symCond
+	innerStep string
+	innerSeen bool
 }
 
 func (s *symState) clone() *symState {
-	n := &symState{conds: append([]symCond(nil), s.conds...)}
+	n := &symState{conds: append([]symCond(nil), s.conds...), innerStep: s.innerStep, innerSeen: s.innerSeen}
 	for _, f := range s.stack {
-		nf := &symFrame{fn: f.fn, env: make(map[ssa.Value]interface{}, len(f.env)), call: f.call, blk: f.blk, prev: f.prev, idx: f.idx, onPath: map[*ssa.BasicBlock]int{}}
+		nf := &symFrame{fn: f.fn, env: make(map[ssa.Value]interface{}, len(f.env)), call: f.call, blk: f.blk, prev: f.prev, idx: f.idx, onPath: map[*ssa.BasicBlock]int{}, havoc: map[*ssa.BasicBlock]bool{}}
+		for k, v := range f.havoc {
+			nf.havoc[k] = v
+		}
 		for k, v := range f.env {
 			nf.env[k] = v
 		}
@@ -143,6 +152,10 @@ type symExec struct {
 	undec   string
 	budget  int
 	retMode bool // exploring from the loop exit to the return
+}
+
+func (c *Ctx) symMF() *markerFacts {
+	return c.markerFacts(report.NewResult("x", "", 0))
 }
 
 func (c *Ctx) symScan() *symScanResult {
@@ -301,6 +314,23 @@ func (c *Ctx) symScan() *symScanResult {
 		return res
 	}
 	res.decided = true
+	for _, p := range res.paths {
+		if p.kind != "back" {
+			continue
+		}
+		line, elide := false, false
+		for _, c := range p.conds {
+			if c.pol && strings.Contains(c.text, "==10") {
+				line = true
+			}
+			if strings.HasPrefix(c.text, "HasSuffix(") {
+				elide = true
+			}
+		}
+		if line && elide {
+			res.lineSteps++
+		}
+	}
 	return res
 }
 
@@ -629,14 +659,59 @@ func (ex *symExec) enter(st *symState, f *symFrame, b *ssa.BasicBlock) bool {
 				}
 			}
 		}
-		ex.res.paths = append(ex.res.paths, symPath{kind: "back", conds: st.conds, next: next, where: blockPos(ex.c, f.blk)})
+		ex.res.paths = append(ex.res.paths, symPath{kind: "back", conds: st.conds, next: next, where: blockPos(ex.c, f.blk), innerStep: st.innerStep})
 		return false
 	}
 	f.onPath[f.blk]++
 	if f.onPath[b] > 0 && b != ex.header {
-		// an inner loop: not enumerated
-		ex.res.paths = append(ex.res.paths, symPath{kind: "inner", conds: st.conds, where: blockPos(ex.c, b)})
-		return false
+		// an inner loop. Its first iteration has been followed; from the
+		// second entry on, the variables it carries are arbitrary (fresh
+		// symbols) and the enumeration goes on from there: the paths that
+		// leave the loop are its effect after any number of iterations.
+		if f.havoc == nil {
+			f.havoc = map[*ssa.BasicBlock]bool{}
+		}
+		if f.havoc[b] {
+			return false // covered by the arbitrary iteration
+		}
+		f.havoc[b] = true
+		nInt, nOther := 0, 0
+		first := 0
+		for i, ins := range b.Instrs {
+			ph, ok := ins.(*ssa.Phi)
+			if !ok {
+				first = i
+				break
+			}
+			// the counter of the inner loop advances by one per iteration
+			if bt, ok := ph.Type().Underlying().(*types.Basic); ok && bt.Info()&types.IsInteger != 0 {
+				st.innerSeen = true
+				old, _ := f.env[ph].(symInt)
+				for j, p := range b.Preds {
+					if p == f.blk {
+						if nv, ok := ex.eval(f, ph.Edges[j]).(symInt); !ok || nv.base != old.base || nv.off != old.off+1 {
+							st.innerStep = fmt.Sprintf("%v -> %v", old, ex.eval(f, ph.Edges[j]))
+						}
+					}
+				}
+			}
+			if bt, ok := ph.Type().Underlying().(*types.Basic); ok && bt.Info()&types.IsInteger != 0 {
+				nInt++
+				name := "N"
+				if nInt > 1 {
+					name = fmt.Sprintf("N%d", nInt)
+				}
+				f.env[ph] = symInt{base: name}
+			} else if bt, ok := ph.Type().Underlying().(*types.Basic); ok && bt.Kind() == types.Bool {
+				nOther++
+				f.env[ph] = symBool(fmt.Sprintf("H%d", nOther))
+			} else {
+				nOther++
+				f.env[ph] = symBytes{fmt.Sprintf("H%d", nOther)}
+			}
+		}
+		f.prev, f.blk, f.idx = f.blk, b, first
+		return true
 	}
 	f.prev, f.blk, f.idx = f.blk, b, 0
 	return true
@@ -794,7 +869,7 @@ func (ex *symExec) call(st *symState, f *symFrame, x *ssa.Call) bool {
 						if callee.Name() == "HasPrefix" {
 							// HasPrefix(B[I:], M): the window is as long as M
 							hi = symInt{lo.base, lo.off + int64(ex.res.markers[bb[0]])}
-							meta.text = "prefix"
+							meta.prefix = true
 						}
 						meta.equalM, meta.lo, meta.hi = bb[0], lo, hi
 					}
@@ -979,7 +1054,50 @@ func ruleC10sym(c *Ctx) []*report.Result {
 			}
 			switch {
 			case line:
-				r.Ok("line step (C03.c): " + cfg)
+				// pending text, then close (or elide an envelope opened just
+				// before), the run of line feeds, re-open
+				construct := "escape.InternalEscapeBytes / line step"
+				b, _ := base(p)
+				pre := append(append(symBytes{}, b...), "B[K:I]")
+				N := symInt{base: "N"}
+				elideTxt := fmt.Sprintf("HasSuffix(%v,%v)", pre, symBytes{"START"})
+				var tested, elided bool
+				otherSuffix := ""
+				for _, c := range p.conds {
+					if c.text == elideTxt {
+						tested, elided = true, c.pol
+					} else if strings.HasPrefix(c.text, "HasSuffix(") {
+						otherSuffix = c.text
+					}
+				}
+				switch {
+				case !tested && otherSuffix != "":
+					r.Fail(construct+" / elision test on the output", p.where, "the test that decides between closing the envelope and eliding one opened just before looks at "+otherSuffix+", want the output just extended with the pending text ("+elideTxt+"): in the output data markers are already escaped, in the input they are not", nil, cfg)
+				case !tested:
+					r.Note("line step without a recognisable elision test (left to C03.c): " + cfg)
+				default:
+					var want symBytes
+					if elided {
+						l := symLen(&symExec{res: res, mf: c.symMF()}, pre).(symInt)
+						want = symBytes{fmt.Sprintf("(%s)[%s:%s]", pre, symInt{}, symInt{l.base, l.off - int64(res.markers["START"])}), "B[I:N]", "START"}
+					} else {
+						want = append(append(symBytes{}, pre...), "END", "B[I:N]", "START")
+					}
+					r.Check(eqBytes(p.next["RES"], want), construct+" / output", p.where, fmt.Sprintf("at a line feed the output becomes %v, want %v (pending text; close the envelope or elide the one just opened; the whole run of line feeds; re-open)", p.next["RES"], want))
+					r.Check(p.innerStep == "", construct+" / run counted byte by byte", p.where, "the loop over the run of line feeds advances its counter by "+p.innerStep+", want +1")
+					maximal := false
+					for _, c := range p.conds {
+						if !c.pol && (c.text == "N<LEN" || strings.Contains(c.text, "B[N]==10")) {
+							maximal = true
+						}
+					}
+					r.Check(maximal, construct+" / maximal run", p.where, "the run of line feeds is left although neither the end of the input nor a byte other than a line feed was found at N: ["+cfg+"]")
+					r.Check(p.next["K"] == interface{}(N), construct+" / copied-up-to index", p.where, fmt.Sprintf("after a run of line feeds ending at N, K becomes %v, want N", p.next["K"]))
+					r.Check(p.next["I"] == interface{}(N), construct+" / scan index", p.where, fmt.Sprintf("after a run of line feeds ending at N the next iteration starts at %v, want N", p.next["I"]))
+					if cp, has := p.next["COPIED"]; has {
+						r.Check(cp == interface{}(symBool("true")) || (cp == interface{}(symBool("COPIED")) && hasCond(p, "COPIED", true)), construct+" / copied flag", p.where, fmt.Sprintf("after a line step the copied flag is %v, want true", cp))
+					}
+				}
 			case len(hits) > 1:
 				r.Fail("escape.InternalEscapeBytes / marker step", p.where, "two marker tests succeed on one path: ["+cfg+"]", nil, cfg)
 			case len(hits) == 1:
@@ -989,7 +1107,7 @@ func ruleC10sym(c *Ctx) []*report.Result {
 				end := symInt{"I", L}
 				okWin := h.lo == I && h.hi == end
 				r.Check(okWin, construct+" / window", p.where, fmt.Sprintf("the window compared with the %d-byte marker is B[%s:%s], want B[I:I+%d]", L, h.lo, h.hi, L))
-				r.Check(h.text == "prefix" || leq(p, end, symInt{base: "LEN"}), construct+" / within bounds", p.where, "the window is compared without I+len(marker) <= len(B) having been established on the path (out-of-range slice, a panic inside printing): ["+cfg+"]")
+				r.Check(h.prefix || leq(p, end, symInt{base: "LEN"}), construct+" / within bounds", p.where, "the window is compared without I+len(marker) <= len(B) having been established on the path (out-of-range slice, a panic inside printing): ["+cfg+"]")
 				b, known := base(p)
 				want := append(append(symBytes{}, b...), "B[K:I]", "ESC")
 				okRes := eqBytes(p.next["RES"], want)
@@ -1055,7 +1173,8 @@ func ruleC10sym(c *Ctx) []*report.Result {
 				if hasCond(p, "COPIED", true) {
 					wants = append(wants, symBytes{"RES", "B[K:LEN]"})
 				} else {
-					wants = append(wants, symBytes{"RES"})
+					// nothing copied: the output still is the input itself
+					wants = append(wants, symBytes{"RES"}, symBytes{"B"})
 				}
 			}
 			okRet := false
